@@ -63,12 +63,22 @@ def gen_case(rng, tier):
         Z = dgmgen.perturbed_copy(rng, rng.choice((X, Y)), scale, max_n, style)
     else:
         Z, _, _, _ = dgmgen.gen_diagram(rng, max_n, style=style, scale=scale, shift=shift, allow_inf=False)
+    # essential classes: rows with infinite death anywhere in the diagram (both distances drop them with a
+    # warning, so every law must hold on diagrams that contain them)
+    if rng.random() < 0.25:
+        for D_ in (X, Y, Z):
+            if rng.random() < 0.6:
+                for _ in range(rng.randint(1, 2)):
+                    b_ = rng.choice(D_)[0] if D_ else 0.0
+                    D_.insert(rng.randrange(len(D_) + 1), [b_, float("inf")])
     perm = list(range(len(X)))
     rng.shuffle(perm)
     ndiag = rng.randint(1, 3)
     diag = []
     for _ in range(ndiag):
         t = (rng.choice(X + Y)[rng.randrange(2)] if X + Y and rng.random() < 0.6 else rng.randint(-2, 6) * 0.5 * scale)
+        if not math.isfinite(t):
+            t = rng.randint(-2, 6) * 0.5 * scale
         diag.append([t, t])
     return {
         "inputs": {"X": X, "Y": Y, "Z": Z, "perm": perm, "diag": diag,
@@ -120,7 +130,7 @@ class Ev(object):
 
 
 def _scale(*ds):
-    c = [abs(x) for d in ds for p in d for x in p]
+    c = [abs(x) for d in ds for p in d for x in p if math.isfinite(x)]
     return max(c) if c else 1.0
 
 
@@ -129,8 +139,8 @@ def run_case(case, sched):
     X, Y, Z = inp["X"], inp["Y"], inp["Z"]
     for d in (X, Y, Z, inp["diag"]):
         dgmgen.check_diagram_json(d)
-        if any(not math.isfinite(p[1]) for p in d):
-            raise InvalidCase("finite diagrams only")
+    if any(not math.isfinite(p[1]) for p in inp["diag"]):
+        raise InvalidCase("diag points are finite")
     if any(p[0] != p[1] for p in inp["diag"]):
         raise InvalidCase("diag points must be diagonal")
     perm = inp["perm"]
@@ -225,7 +235,7 @@ def run_case(case, sched):
             if not abs(a * factor - b) <= wt(XF, YF) + factor * wt(X, Y):
                 fail(law, "wasserstein", "nonlinear", "d(X,Y)=%r, d(cX,cY)=%r, c=%r" % (a, b, factor))
         elif law == "vs-empty":
-            pers = [p[1] - p[0] for p in Y]
+            pers = [p[1] - p[0] for p in Y if math.isfinite(p[1])]
             want_b = max(pers) / 2.0 if pers else 0.0
             want_w = math.fsum(pers) / math.sqrt(2.0)
             for a, where in ((ev.bott(Y, []), "d(Y,{})"), (ev.bott([], Y), "d({},Y)")):
@@ -247,7 +257,8 @@ def run_case(case, sched):
         "key": hashlib.sha1(json.dumps([X, Y, Z]).encode()).hexdigest()[:16],
         "nontrivial": nonempty >= 2 and nX + nY + nZ >= 4 and done >= 5,
         "probes": {"size_ge_60": int(max(nX, nY, nZ) >= 60 or nX + nY >= 60), "size_ge_200": int(nX + nY >= 200),
-                   "an_empty_diagram": int(nonempty < 3), "law_instances": done},
+                   "an_empty_diagram": int(nonempty < 3), "law_instances": done,
+                   "diagrams_with_infinite_deaths": int(any(not math.isfinite(p[1]) for d_ in (X, Y, Z) for p in d_))},
         "faults": {"set_iterations_ordered": simset.CTX.iters, "non_insertion_choices": simset.CTX.permuted},
     }
 
